@@ -31,6 +31,16 @@ def frames(rng, nframes, declare=True, maxw=8, maxh=5):
                 if kind.startswith("cv"):
                     cells = {}
                 parts.append(kind % (w, h))
+        elif f > 0 and r < 0.27:
+            # a canvas without cells in between: the next draw is a size change again (full retransmission),
+            # although the picture and its size are the same as before the empty canvas
+            zw, zh = rng.choice([(0, 0), (0, h), (w, 0), (0, rng.randrange(0, maxh + 1)), (rng.randrange(0, maxw + 1), 0)])
+            parts.append(rng.choice(["cv %d %d", "rz %d %d"]) % (zw, zh))
+            parts.append("dr")
+            parts.append("cv %d %d" % (w, h))
+            for (x, y), e in sorted(cells.items()):
+                if x < w and y < h:
+                    parts.append(px(x, y, e))
         nedit = rng.choice([0, 1, 1, 2, 3, 4, w * h])
         for _ in range(nedit):
             x, y = tg.pos(rng, w, h)
